@@ -398,6 +398,10 @@ func (c *c19ctx) injectB1(n int) {
 		}
 		return
 	}
+	if kind == "syntax" && c.r.IntN(6) == 0 {
+		c.injectBase64()
+		return
+	}
 	if kind == "syntax" && c.r.IntN(5) < 3 {
 		c.injectCSV()
 		return
